@@ -72,7 +72,7 @@ func init() {
 		Assumptions: []string{
 			"proto.Marshal/proto.Unmarshal are inverse on pb.Snapshot up to Go-level representation (nil vs empty): the contracts relate the server state to the pb.Snapshot value on both sides of that dependency through the same predicates (sessRepr, modesRepr, cfgRepr); an empty ban map may come back as nil (handled by the relation)",
 			"snapshots are taken between entries: no session is marked deleted (wfAlive), every session has its creation time and last non-ping activity set (requires legacy-created of Marshal: both are set from the entry's timestamp by createSessionLocked), user modes below 'A' are never set (requires modes-letters)",
-			"Unmarshal runs on a server fresh from NewIRCServer (requires fresh-server) and on a snapshot written by Marshal (assume@after proto.Unmarshal: the shape facts wfSnapSessions/wfSnapTop/wfSnapNicks that Marshal is proved to establish, except wfSnapNicks, which follows from the nickname invariant wfOwner of the writer and is assumed)",
+			"Unmarshal runs on a server fresh from NewIRCServer (requires fresh-server) and on a snapshot written by Marshal (assume@after proto.Unmarshal: the shape facts wfSnapSessions/wfSnapTop/wfSnapNicks, each of which Marshal is proved to establish - wfSnapNicks from the handlers' invariants wfOwner/wfNicks/wfAlive, which hold between entries)",
 			"time.Unix(0, t.UnixNano()) == t for every non-zero time of the program (wall clock, years 1678-2262); Duration.String/ParseDuration and hex.EncodeToString/DecodeString are inverse (contracts/deps.spec)",
 		},
 		NotCovered: []string{
@@ -86,6 +86,7 @@ func init() {
 		p.Units = []UnitPlan{
 			{"ircserver.timestampToTime", post}, {"ircserver.timeToTimestamp", post},
 			{"ircserver.IRCServer.Marshal", g("sess")}, {"ircserver.IRCServer.Marshal", g("config")},
+			{"ircserver.IRCServer.Marshal", vc.UnitOpts{AssertsOnly: true, Groups: []string{"sess", "sessnicks"}}},
 			{"ircserver.IRCServer.Unmarshal", g("sessin", "sessrepr")}, {"ircserver.IRCServer.Unmarshal", g("sessin", "nicks")},
 			{"ircserver.IRCServer.Unmarshal", g("sessin", "services")}, {"ircserver.IRCServer.Unmarshal", g("sessin", "modes")},
 			{"ircserver.IRCServer.Unmarshal", g("sessin", "chans")},
